@@ -163,6 +163,18 @@ def run_task(t):
                 st = st[:, 0]
             res['stored_after_second'] = arr(st)
         return res
+    if kind == 'motion_point':
+        # translation()/rotation() on a mesh without attached data: where do the nodes go?
+        fd = build(t['mesh'])
+        fd.nodal_data.reset()
+        fd.elemental_data.reset()
+        if t['motion'] == 'rotation':
+            fd.rotation(*t['axis'], t['theta'])
+            extra = {'c': fhex(np.cos(t['theta'])), 's': fhex(np.sin(t['theta']))}
+        else:
+            fd.translation(*t['axis'])
+            extra = {}
+        return dict(extra, node_ids=[int(i) for i in fd.nodes.ids], coords=arr(fd.nodes.data))
     if kind == 'validate':
         # the common exit of the scalar entry points on an arbitrary array of values
         fd = build(t['mesh'])
